@@ -30,12 +30,19 @@ MANIFEST = {
 }
 
 MAPS = [
-    # (.map lines, an in-window origin)
+    # (.map lines, an in-window origin, a RAM / other address, the declared bank ranges (first, last, window, writable))
     (".map identifier=1 bank_range=0x00,0x3f addr_range=0x8000,0xffff mask=0x8000\n"
-     ".map identifier=2 bank_range=0x7e,0x7f addr_range=0,0xffff mask=0x10000 writable=1\n", 0x018000, 0x7E0000),
+     ".map identifier=2 bank_range=0x7e,0x7f addr_range=0,0xffff mask=0x10000 writable=1\n", 0x018000, 0x7E0000,
+     [(0x00, 0x3F, 0x8000, False), (0x7E, 0x7F, 0x10000, True)]),
     (".map identifier=1 bank_range=0x40,0x6f addr_range=0,0xffff mask=0x10000 mirror_bank_range=0xc0,0xef\n"
-     ".map identifier=3 bank_range=0x70,0x71 addr_range=0,0xffff mask=0x10000 writable=1\n", 0x41FFF0, 0x700000),
-    (".map identifier=7 bank_range=0x10,0x1f addr_range=0x8000,0xffff mask=0x8000 mirror_bank_range=0x90,0x9f\n", 0x90FFF8, 0x108000),
+     ".map identifier=3 bank_range=0x70,0x71 addr_range=0,0xffff mask=0x10000 writable=1\n", 0x41FFF0, 0x700000,
+     [(0x40, 0x6F, 0x10000, False), (0xC0, 0xEF, 0x10000, False), (0x70, 0x71, 0x10000, True)]),
+    (".map identifier=7 bank_range=0x10,0x1f addr_range=0x8000,0xffff mask=0x8000 mirror_bank_range=0x90,0x9f\n", 0x90FFF8, 0x108000,
+     [(0x10, 0x1F, 0x8000, False), (0x90, 0x9F, 0x8000, False)]),
+    # a later declaration takes banks away from an earlier one
+    (".map identifier=1 bank_range=0x00,0x7f addr_range=0x8000,0xffff mask=0x8000\n"
+     ".map identifier=2 bank_range=0x20,0x2f addr_range=0,0xffff mask=0x10000\n", 0x21FFF0, 0x308000,
+     [(0x00, 0x7F, 0x8000, False), (0x20, 0x2F, 0x10000, False)]),
 ]
 
 
@@ -110,12 +117,12 @@ def cases(ctx):
                     "files": {"big.bin": blob},
                     "src": f"*={org:#08x}\n.db 0xE0\nblob:\n.incbin 'big.bin'\nafter:\n.dl after, blob\njmp.l after\n"})
     # user .map configurations
-    for text, org, ram in MAPS:
+    for text, org, ram, ranges in MAPS:
         for body in ("nop\n.db 1,2,3\nl:\n.dl l\n", f"lda.w #0x1234\n@={ram:#08x}\nr:\n.dl r\n*={org + 0x20:#08x}\nrts\n",
                      ".db 1,2,3,4,5,6,7,8,9,10,11,12,13,14,15,16,17,18\nend:\n.dl end\n"):
             # with a built-in mapping chosen first (as the front ends do) and without (the bare library entry point)
             for rom in ("low", None, "high"):
                 out.append({"kind": f"user-map:{rom}", "rom": rom, "trace": True,
-                            "spec": {"t": "blocks", "high": False, "user_map": True},
+                            "spec": {"t": "blocks", "high": False, "user_map": True, "user_ranges": ranges},
                             "src": f"{text}*={org:#08x}\n{body}"})
     return out
